@@ -24,7 +24,7 @@ func init() {
 			"(d) the result map is keyed by the index under which the validators manager returned the validator whose public key selects the account; the validators manager fills its three maps from one element per iteration and keys ValidatorsByPubKey results by validatorPubKeyToIndex of the same key; " +
 			"(e) dirk replaces accounts and pubKeys only when NOT (new list empty and old list non-empty); the validators manager replaces its maps only after a nil error and a non-empty result; " +
 			"(f) the by-index variants add an account only for requested indices. " +
-			"Added with the fourth seeding round: (g) the validators manager's maps are accessed under validatorsMutex. NOT decided: which names a regular expression admits (regexp semantics), correctness of ValidatorToState (library), unlock behaviour.",
+			"Added with the fourth seeding round: (g) the validators manager's maps are accessed under validatorsMutex. Added with the fifth seeding round: (h) the validators manager is refreshed once with the whole list of public keys, not in a loop and not with a part of the list. NOT decided: which names a regular expression admits (regexp semantics), correctness of ValidatorToState (library), unlock behaviour.",
 		Technique: "string-shape analysis of regexp sources, guard/edge-deletion queries through boolean flags, exhaustive finite-enum partial evaluation of state predicates, provenance of map keys/values, sibling template conformance",
 		Rule:      "obligations per compiled specifier (a), per result insertion (b,d,f), per predicate x 10 states (c), per replacing store (e)",
 	})
@@ -381,6 +381,27 @@ func runC13(p *core.Prog, r *core.Report, tier string) {
 	nVM := checkFieldsUnderMutex(p, r, core.NewLockAnalysis(p), "C13.g", "services/validatorsmanager/standard", []string{"validatorsByIndex", "validatorsByPubKey", "validatorPubKeyToIndex"}, "validatorsMutex",
 		"a refresh between this access and the others makes the lookup mix two validator sets (an account reported under another validator's index, or under index 0)")
 	r.Floor("C13.g accesses to the validators manager's maps", nVM, 6)
+
+	// (h) the validators manager's refresh replaces the whole set, so it is asked once, with the whole list of public
+	// keys: not in a loop, not with a part of the list (only the last batch would stay known)
+	nRef := 0
+	for _, f := range p.SrcFuncs() {
+		if !strings.HasPrefix(core.RelPkg(f.Pkg.Pkg.Path()), "services/accountmanager") {
+			continue
+		}
+		for _, ci := range core.Calls(f, func(c *ssa.CallCommon) bool {
+			return c.IsInvoke() && c.Method.Name() == "RefreshValidatorsFromBeaconNode"
+		}) {
+			nRef++
+			args := ci.Common().Args
+			last := args[len(args)-1]
+			_, partial := last.(*ssa.Slice)
+			inLoop := core.InLoop(ci.(ssa.Instruction))
+			r.Check(!partial && !inLoop, "C13.h", fmt.Sprintf("%s|whole-set-refresh#%d", core.FnKey(f), nRef), p.Pos(ci.Pos()), "the validators are refreshed once with the whole list of public keys",
+				"the validators manager (whose refresh replaces its whole set) is refreshed in parts — in a loop and/or with a sub-slice of the public keys: only the validators of the last part stay known, the accounts of the others stop being reported as validating")
+		}
+	}
+	r.Floor("C13.h validator refresh calls in the account managers", nRef, 2)
 
 	// IsSyncCommitteeEligible
 	if f := p.Func("services/accountmanager/utils", "", "IsSyncCommitteeEligible"); f != nil {
